@@ -46,8 +46,8 @@ func c17Rules(tier string) []Rule {
 		dra     = "scheduling/dynamicresources."
 		try     = "(*" + dra + "allocator).tryDevice"
 	)
-	reserved := `phi\(nil\|phi\(.*append\(.*\)\)\)`
-	hasCompat := `phi\(false\|phi\(.*true.*\)\)`
+	reserved := `phi\(nil\|phi\(append\(.*\)\|phi↺\)\)`
+	hasCompat := `phi\(false\|phi\(true\|phi↺\)\)`
 	return []Rule{
 		// ---- (1) who writes reservation state
 		core.Custom{ID: "C17.WSET1", Kind: "WSET", Run: c17ReservationWriters},
@@ -101,7 +101,7 @@ func c17Rules(tier string) []Rule {
 			rs = append(rs, core.ArgProvenance(w, id, "(*sched.Scheduler).addToInflightNode", `^call \(\*sched\.NodeClaim\)\.Add\(`, 6, `^\^?\(\*sched\.NodeClaim\)\.CanAdd\(.*\)#2$`, "the in-flight claim reserves what its CanAdd returned")...)
 			rs = append(rs, core.ArgProvenance(w, id, "(*sched.Scheduler).addToNewNodeClaim", `^call \(\*sched\.NodeClaim\)\.Add\(`, 6, `^&local<\[\]\*cloudprovider\.Offering>$`, "the new claim reserves the chosen candidate's list")...)
 			rs = append(rs, core.InstrPresent(w, id, "PROV", newCl, `^store \^&local<\[\]\*cloudprovider\.Offering> = \(\*sched\.NodeClaim\)\.CanAdd\(.*\)#2$`, 1, "…which is what that candidate's CanAdd returned")...)
-			rs = append(rs, core.ArgProvenance(w, id, tva, `^call \(\*sched\.NodeClaim\)\.offeringsToReserve\(`, 2, `^phi\(sched\.filterInstanceTypesByRequirements\(.*\)#0\|lo\.Filter\[\*cloudprovider\.InstanceType, cloudprovider\.InstanceTypes\]\(sched\.filterInstanceTypesByRequirements\(`, "reservations are computed over the surviving instance types")...)
+			rs = append(rs, core.ArgProvenance(w, id, tva, `^call \(\*sched\.NodeClaim\)\.offeringsToReserve\(`, 2, `^phi\(lo\.Filter\[\*cloudprovider\.InstanceType, cloudprovider\.InstanceTypes\]\(sched\.filterInstanceTypesByRequirements\(.*\|sched\.filterInstanceTypesByRequirements\(.*\)#0\)$`, "reservations are computed over the surviving instance types")...)
 			rs = append(rs, core.ArgProvenance(w, id, tva, `^call \(\*sched\.NodeClaim\)\.offeringsToReserve\(`, 3, `^scheduling\.NewRequirements\(\(scheduling\.Requirements\)\.Values\(\$4\)\)$`, "…under the updated requirements")...)
 			return rs
 		}},
